@@ -224,7 +224,15 @@ func ParseVpsSpsPpsFromEnhancedSeqHeader(payload []byte) (vps, sps, pps []byte, 
 	packetType := payload[0] & 0x0f
 
 	if packetType == 0 {
-		return parseVpsSpsPpsFromRecord(payload)
+		// 和ParseVpsSpsPpsFromSeqHeader保持一致，返回的内存块为新申请的，不引用参数`payload`的内存块
+		v, s, p, e := parseVpsSpsPpsFromRecord(payload)
+		if e != nil {
+			return nil, nil, nil, e
+		}
+		vps = append(vps, v...)
+		sps = append(sps, s...)
+		pps = append(pps, p...)
+		return
 	}
 
 	return nil, nil, nil, nazaerrors.Wrap(base.ErrHevc)
